@@ -430,8 +430,9 @@ class Search:
                             # a second history reaching a known state: kept (bounded) for the merge-soundness differential
                             tgt = self.index[rec['key']]
                             d = self.states[sid].depth + 1
-                            if d <= 8 and tgt != sid:
-                                b = self.merges.setdefault((rec['ev'][0], rec['ev'][-1] if rec['ev'][0] in ('X', 'P') else '', min(d, 5)), [])
+                            if d <= 8:
+                                # self-loops (an event that is ignored, tgt == sid) are kept too: being ignored must also leave no hidden trace
+                                b = self.merges.setdefault((rec['ev'][0], rec['ev'][-1] if rec['ev'][0] in ('X', 'P') else '', min(d, 5), tgt == sid), [])
                                 if len(b) < self.merge_cap:
                                     b.append((tgt, sid, rec['ev'], rec['cev']))
                         if rec['key'] not in self.index:
